@@ -10,9 +10,9 @@ Tie (T)    : translators/c04_delete.py regenerates coq/Gen_C04.v from the curren
              tail of every cgi_*_address; Gen_C11.v (translators/c11_goto.py) supplies the goto table and the structs.
              The kernel re-evaluates delete_table_ok / write_table_ok / addr_tails_ok on the regenerated tables.
 Tie (C)    : the extracted model (ocaml/eng_c04.ml) and the real library (harness/c04_mod.c, ASan/UBSan build of the
-             working tree) run the same modify-mode histories -- about 170 (parent label, child label) sibling groups on
-             ~55 position labels, every tree level, ADF and HDF5, compress-on-close off / on / always; every w / d / v /
-             o line is compared.
+             working tree) run the same modify-mode histories -- about 145 (parent label, child label) sibling groups on
+             ~42 position labels, every tree level, ADF and HDF5, compress-on-close off / on / always; every w / d / v /
+             o line is compared.  Single children (CGNS_DELETE_CHILD arms) are exercised on the implementation only.
 Oracles    : independent of the model, evaluated on the implementation's output only:
              O1 session vs fresh open  -- every view taken before a cg_close equals the view after cg_open (as a map
                 name -> payload; as a list unless the history contains the by-design case below);
@@ -21,11 +21,15 @@ Oracles    : independent of the model, evaluated on the implementation's output 
              O3 ideal tree             -- a Python dict-of-dicts reference (class Ref) predicts every status and every view.
 Findings   : probes exhibit what the unchanged tree does wrong (or does by design) and go through ck.finding(key):
                index-after-overwrite-nonlast:<label>      by design: the slot is re-used, the database appends
+               index-after-reopen-sorted:<label>          by design: cgi_read_base orders (particle) zones by name
                failed-write-leaves-phantom                a write colliding with a sibling of another label fails after
                                                           the mirror was extended
-               delete-arm-shadowed:<parent>/<label>:<name>  a name-selected arm precedes the label arm
+               multifam-overwrite-stale-id                cg_multifam_write never stores the id of the node it creates
+               pzone-close-frees-first-integral-repeatedly  cgi_free_particle frees integral[0] nintegrals times
+               delete-arm-shadowed:<parent>/<label>:<name>  a name-selected arm precedes the label arm (from Mirror.shadowed)
                delete-no-dispatch-block:<parent>          cg_delete_node has no block for a reachable parent label
-             the random histories avoid exactly these triggers; everything else is a VIOLATION.
+             the random histories avoid the triggers of the last four only while the probe still fails; everything
+             else -- any other index difference included -- is a VIOLATION.  See notes/C04.md.
 """
 import hashlib, json, os, re
 import vlib
@@ -206,13 +210,20 @@ class Ref:
         return 0, nd["slots"][label].index(name) + 1
 
     def mk(self, path, chain):
+        """a single-child container: the intermediate node of a chain (BCProperty_t, GridConnectivityProperty_t) is kept when
+        it exists, the last one is deleted and created again (its subtree is gone)"""
         nd = self.nodes.get(path)
         if nd is None:
             return 1
         cur = path
-        for name, label in chain:
+        for i, (name, label) in enumerate(chain):
             n = self.nodes[cur]
-            if name not in n["names"]:
+            last = i == len(chain) - 1
+            if name in n["names"] and last:
+                n["file"].remove(name); n["file"].append(name)
+                self.drop(join(cur, name))
+                self.nodes[join(cur, name)] = self._new(label)
+            elif name not in n["names"]:
                 self._add(cur, name, label, 0)
                 n["file"].append(name)
                 self.nodes[join(cur, name)] = self._new(label)
@@ -325,7 +336,10 @@ def expand(ops, backend, fpath, compress, full_every=None):
             _, path, what, arg, chain = op
             st = ref.mk(path, chain)
             lines.append("mk %s %s%s" % (path, what, " " + arg if arg else ""))
-            exp.append(("c", st, k))
+            inner = path
+            for name, _ in chain:
+                inner = join(inner, name)
+            exp.append(("c", st, k, inner))          # the (re-)created container: the engine forgets what was below it
             near = []
         elif op[0] == "reopen":
             views(ref.groups(), ("pre", k))
@@ -800,6 +814,9 @@ def model_lines(lines, out, exp=None):
         if t[0] == "d" and exp is not None and len(exp[i]) > 3 and exp[i][3]:
             ml.append("drop " + join(t[1], t[3]))
             continue
+        if t[0] == "mk" and exp is not None and len(exp[i]) > 3:
+            ml.append("drop " + exp[i][3])
+            continue
         if t[0] in ("w", "u", "d", "v", "reopen"):
             ml.append(l); il.append(o)
     return ml, il
@@ -911,15 +928,20 @@ def run(ck):
         ml = [x for x in ml if not x.startswith("drop ")]
         if mo != il:
             d = vlib.first_divergence(mo, il)
-            corr_broken.append({"history": [lines_of_op(o) for o in ops], "backend": backend, "compress": compress,
+            corr_broken.append({"ops": ser(ops), "history": [lines_of_op(o) for o in ops], "backend": backend, "compress": compress,
                                 "first_divergence": {"line": ml[d[0]] if d and d[0] < len(ml) else None, "model": d[1], "impl": d[2]} if d else None})
 
     def report(ops, backend, compress, fails, tag):
         """shrink and report a failing history"""
+        def sig(f):
+            g = f.get("group")
+            return (f["class"], g[2] if g else None)
+        want = sig(fails[0])
+
         def still(sub):
             l2, e2, o2, oc2 = exec_case(sub, backend, compress, "shrink")
             f2 = evaluate(sub, l2, e2, o2, oc2)
-            return bool(f2) and order_by_design(sub, f2) is None
+            return bool(f2) and order_by_design(sub, f2) is None and any(sig(f) == want for f in f2)
         small = vlib.ddmin(ops, still, max_tests=120) if len(ops) > 3 else list(ops)
         l2, e2, o2, oc2 = exec_case(small, backend, compress, "shrink")
         f2 = evaluate(small, l2, e2, o2, oc2) or fails
@@ -945,18 +967,20 @@ def run(ck):
         other = [f for f in fails if f.get("group") != grp]
         if ph and not other and all(f["class"] == "content" for f in ph):
             finding("failed-write-leaves-phantom",
-                       {"witness": "C04_failed_write_refuted", "history": [lines_of_op(o) for o in ops], "backend": backend, "failures": ph[:2]})
+                       {"witness": "C04_failed_write_refuted", "ops": ser(ops), "history": [lines_of_op(o) for o in ops], "backend": backend, "failures": ph[:2]})
         elif fails:
             report(ops, backend, 0, fails, "probe failed write")
         # AdditionalFamilyName_t: overwrite in the session that created the entry
         ops = [("w", "/B", "CGNSBase_t", "Zone_t", "Z0", 5), ("w", "/B/Z0", "Zone_t", F, "Afn1", 1), ("w", "/B/Z0", "Zone_t", F, "Afn2", 2),
                ("w", "/B/Z0", "Zone_t", F, "Afn1", 3)]
         fails, lines, out, outcome = probe(ops, backend, "multifam overwrite")
+        if fails and order_by_design(ops, fails) is not None:
+            fails = []              # the overwrite works; only the by-design index difference is left (reported below)
         if fails:
             at_overwrite = outcome != "ok" or all(f.get("op") == 3 or (f.get("when") or [None, None])[1] in (3, 4) for f in fails)
             if at_overwrite:
                 AVOID["afn_overwrite"] = True
-                finding("multifam-overwrite-stale-id", {"history": [lines_of_op(o) for o in ops], "backend": backend,
+                finding("multifam-overwrite-stale-id", {"ops": ser(ops), "history": [lines_of_op(o) for o in ops], "backend": backend,
                                                            "outcome": outcome, "failures": fails[:2]})
             else:
                 report(ops, backend, 0, fails, "probe multifam overwrite")
@@ -968,7 +992,7 @@ def run(ck):
             if outcome.startswith("asan:") and "cgi_free" in outcome:
                 AVOID["pzone_integral"] = True
                 finding("pzone-close-frees-first-integral-repeatedly",
-                           {"history": [lines_of_op(o) for o in ops], "backend": backend, "outcome": outcome})
+                           {"ops": ser(ops), "history": [lines_of_op(o) for o in ops], "backend": backend, "outcome": outcome})
             else:
                 report(ops, backend, 0, fails, "probe particle zone integrals")
     static_broken = []          # what the tables flag without (yet) a failing input: searched for below, reported at the end
@@ -1000,7 +1024,7 @@ def run(ck):
                 and not Ref.sorted_on_read(pl, label):
             by_design[label] = backend
             finding("index-after-overwrite-nonlast:" + label,
-                       {"witness": "C04_order_refuted", "history": [lines_of_op(o) for o in ops], "backend": backend,
+                       {"witness": "C04_order_refuted", "ops": ser(ops), "history": [lines_of_op(o) for o in ops], "backend": backend,
                         "session": idx[0]["session"], "reopened": idx[0]["reopened"],
                         "by_design": "the session re-uses the slot, the database appends the re-created node"})
         elif fails:
@@ -1018,7 +1042,7 @@ def run(ck):
         if fails and keys == {"index-after-reopen-sorted:" + label}:
             by_design["sorted:" + label] = backend
             finding("index-after-reopen-sorted:" + label,
-                    {"witness": "C04_zone_sort_refuted", "history": [lines_of_op(o) for o in ops], "backend": backend,
+                    {"witness": "C04_zone_sort_refuted", "ops": ser(ops), "history": [lines_of_op(o) for o in ops], "backend": backend,
                      "session": fails[0]["session"], "reopened": fails[0]["reopened"],
                      "by_design": "cgi_read_base orders the zones of a base by name"})
         elif fails:
@@ -1042,7 +1066,7 @@ def run(ck):
             if fails:
                 div = True
                 finding("delete-arm-shadowed:%s/%s:%s" % (pl, label, name),
-                           {"history": [lines_of_op(o) for o in ops], "backend": backend, "failures": fails[:3],
+                           {"ops": ser(ops), "history": [lines_of_op(o) for o in ops], "backend": backend, "failures": fails[:3],
                             "table": "Mirror.shadowed on the regenerated Gen_C04.delete_table lists this triple"})
         replayed.append({"triple": [pl, label, name], "replayed": True, "diverges": div})
     for (pl, kind) in tables["no_block"]:
@@ -1058,7 +1082,7 @@ def run(ck):
             fails, lines, out, outcome = probe(ops, backend, "parent without block", {"parent": pl})
             if fails:
                 div = True
-                finding("delete-no-dispatch-block:%s" % pl, {"history": [lines_of_op(o) for o in ops], "backend": backend, "failures": fails[:3]})
+                finding("delete-no-dispatch-block:%s" % pl, {"ops": ser(ops), "history": [lines_of_op(o) for o in ops], "backend": backend, "failures": fails[:3]})
         replayed.append({"no_block": pl, "replayed": True, "diverges": div})
     for (pl, label) in tables["unsound"]:
         if pl == PIT and any(r.get("no_block") == PIT for r in replayed):
@@ -1074,7 +1098,6 @@ def run(ck):
             dist["ops"][o[0]] = dist["ops"].get(o[0], 0) + 1
         dist["backends"][backend] = dist["backends"].get(backend, 0) + 1
         dist["compress"][str(compress)] = dist["compress"].get(str(compress), 0) + 1
-        nontriv = any(o[0] == "d" for o in ops) and any(x in v for v in [set()] for x in ())
         names = set()
         ow = False
         for o in ops:
@@ -1090,7 +1113,7 @@ def run(ck):
             keys = order_by_design(ops, fails)
             if keys is not None:
                 for key in sorted(keys):
-                    finding(key, {"history": [lines_of_op(o) for o in ops], "backend": backend, "compress": compress,
+                    finding(key, {"ops": ser(ops), "history": [lines_of_op(o) for o in ops], "backend": backend, "compress": compress,
                                      "failures": fails[:3], "by_design": "the session re-uses the slot, the database appends"})
                 fails = []
                 # the model must still print the same lines
@@ -1201,6 +1224,10 @@ def replay(ck, path):
     ops = deser(r["ops"])
     lines, exp, out, outcome = run_case(exe, ops, r["backend"], os.path.join(ck.work, "replay.cgns"), r.get("compress", 0))
     fails = evaluate(ops, lines, exp, out, outcome)
+    if r.get("finding_key"):
+        print("replay of finding %s: the implementation %s: %s" % (r["finding_key"], "still diverges" if fails else "no longer diverges",
+                                                                   json.dumps(fails[:2])))
+        return 1 if fails else 0
     if fails and order_by_design(ops, fails) is not None:
         print("replay: only the by-design index difference remains:", json.dumps(fails[:2]))
         return 0
